@@ -307,6 +307,11 @@ pub fn finish(ctx: &RunCtx, mut report: Report, started: Instant) -> i32 {
         if items.len() > 3 {
             out!("  (+{} more occurrence(s) of key={})", items.len() - 3, key);
         }
+        if std::env::var("VERIF_ALL").is_ok() {
+            for v in items.iter() {
+                out!("  OCCURRENCE key={} scenario={}", v.key, truncate(&v.scenario.to_string(), 300));
+            }
+        }
     }
 
     for e in &report.errors {
